@@ -3,6 +3,7 @@ import hashlib
 import inspect
 import json
 import logging
+import threading
 import time
 from collections.abc import Callable
 from concurrent.futures import ThreadPoolExecutor
@@ -78,6 +79,11 @@ class Guard:
         self._compiled: Callable[[dict[str, Any]], dict[str, Any]] | None = None
         self.strict_types: bool = bool(strict_types)
         self.relationship_checker = relationship_checker
+        # Publication of (policy, etag, compiled) is atomic w.r.t. cache writes:
+        # set_policy bumps the generation under this lock, and an evaluation stores its
+        # result only if the generation it started from is still current.
+        self._policy_lock = threading.Lock()
+        self._policy_gen: int = 0
 
         # Provide a "current" loop if missing (helps tests on Py3.12+).
         try:
@@ -100,11 +106,13 @@ class Guard:
 
     def set_policy(self, policy: dict[str, Any]) -> None:
         """Replace policy/policyset."""
-        self.policy = policy
-        self._recompute_etag()
-        # Invalidate cache entirely; etag changes will naturally change keys,
-        # but clearing avoids memory growth and stale entries.
-        self.clear_cache()
+        with self._policy_lock:
+            self._policy_gen += 1
+            self.policy = policy
+            self._recompute_etag()
+            # Invalidate cache entirely; etag changes will naturally change keys,
+            # but clearing avoids memory growth and stale entries.
+            self.clear_cache()
 
     def update_policy(self, policy: dict[str, Any]) -> None:
         """Alias kept for backward-compatibility."""
@@ -201,6 +209,8 @@ class Guard:
         key: str | None = None
 
         if cache is not None:
+            with self._policy_lock:
+                gen = self._policy_gen
             try:
                 key = self._cache_key(env)
                 if key:
@@ -223,7 +233,11 @@ class Guard:
             if cache is not None:
                 try:
                     if key:
-                        cache.set(key, raw, ttl=self.cache_ttl)
+                        with self._policy_lock:
+                            # a concurrent set_policy may have replaced the etag or the
+                            # compiled function this result was derived from: do not store
+                            if self._policy_gen == gen:
+                                cache.set(key, raw, ttl=self.cache_ttl)
                 except Exception:  # pragma: no cover
                     logger.exception("RBACX: cache.set failed")
 
